@@ -740,6 +740,10 @@ impl<NumericTypes: EvalexprNumericTypes> Node<NumericTypes> {
                 }
             } else {
                 // println!("Inserting as specified");
+                // A binary operator without children was not given a left operand
+                if self.operator().max_argument_amount() == Some(2) && self.children.is_empty() {
+                    return Err(EvalexprError::wrong_operator_argument_amount(0, 2));
+                }
                 self.children.push(node);
                 Ok(())
             }
